@@ -14,7 +14,9 @@ from .c09 import parse_rate
 RULE = ("seeded histories of 1..25 interleaved update / get_rate / call steps "
         "on a fresh MoneyConverter: 3-6 currencies named as Currency objects "
         "or ISO codes, validity None / year / month / day in every spelling, "
-        "overlapping and repeated keys, kind-mixing attempts, lookups for "
+        "overlapping and repeated keys, kind-mixing attempts, updates that "
+        "fail on an invalid rate spec (of any kind of period, also before "
+        "the first accepted update), lookups for "
         "dates inside, adjacent to and far from each period, explicit date "
         "or the default-date callable (a counting stub whose value changes "
         "during the history); non-trivial = lookup after at least one update; "
@@ -133,15 +135,37 @@ def history_case(chk, rng, hi):
                                     ["i", um]]])
                 writes.append((c, um, ta, as_code))
             key = "u%d" % i
-            # the specs as a list, a tuple, or a one-shot iterator
+            # one update in ten carries a rate spec the library must refuse
+            # (wherever it stands among valid ones, whatever the kind of
+            # period, also as the very first update): the whole update
+            # fails and the converter -- entries and kind -- is as before
+            failing = rng.random() < 0.1
+            if failing:
+                if rng.random() < 0.5:
+                    k = rng.choice(["none", "year", "month", "day"])
+                    per = period_of(k, d)
+                    vexpr, sp = spell(rng, k, per)
+                c = rng.choice(others)
+                badspec = rng.choice([
+                    [U(c), ["i", 0], ["i", 1]],
+                    [U(c), num(F(11, 10)), ["i", 0]],
+                    [U(c), ["i", -3], ["i", 1]],
+                    [["s", "ZZ9"], num(F(11, 10)), ["i", 1]],
+                    [U(base), num(F(11, 10)), ["i", 1]]])
+                specs.insert(rng.randint(0, len(specs)), ["t", badspec])
             cont = rng.choice(["list", "list", "tuple", "iterator"])
             sexpr = {"list": ["l", specs], "tuple": ["t", specs],
                      "iterator": ["c", ["g", "builtins:iter"],
                                   [["l", specs]]]}[cont]
-            if not mixing:
+            if not mixing and not failing:
                 tags.add("rate specs given as " + cont)
             steps.append({"k": key, "e": M(V("mc"), "update", vexpr, sexpr)})
-            if mixing:
+            if failing:
+                checks.append((key, "fail", None))
+                tags.add("updates with a refused rate spec")
+                if cur_kind is None:
+                    tags.add("refused update before the first accepted one")
+            elif mixing:
                 checks.append((key, "reject", None))
                 tags.add("kind-mixing rejections")
             else:
@@ -262,6 +286,10 @@ def history_case(chk, rng, hi):
                 if r is None or r.get("k") == "E":
                     bad.append("%s: valid update rejected: %s" %
                                (key, brief(r)))
+            elif what == "fail":
+                if r is None or r.get("k") != "E":
+                    bad.append("%s: update with an invalid rate spec "
+                               "accepted: %s" % (key, brief(r)))
             elif what == "reject":
                 if not is_exc(r, "ValueError"):
                     bad.append("%s: mixing kinds of validity not rejected "
@@ -350,7 +378,9 @@ def run(chk, R, tier, seed):
               "spelling|tuple", "spelling|month-str", "spelling|date",
               "spelling|date-str",
               "dateless lookup repeated after the default date moved",
-              "histories with the built-in default date (today)"):
+              "histories with the built-in default date (today)",
+              "updates with a refused rate spec",
+              "refused update before the first accepted one"):
         chk.require(c)
     prelude = [{"e": M(MONEY, "register_currency", ["s", c])} for c in CODES]
     n = 3000 if tier == "quick" else 40000
